@@ -57,7 +57,7 @@ def subchains(name: str, max_distance: int = 9) -> List[List[str]]:
 
 def gen_repcode_input(rng: random.Random, max_distance: int = 4, max_cycles: int = 8, constructors=("full", "full", "simplified"),
                       ancilla_states: bool = True, connectivity: bool = True, min_distance: int = 2,
-                      simplified_zero_cycles: bool = False, composite_p: float = 0.0) -> Dict[str, Any]:
+                      simplified_zero_cycles: bool = False, composite_p: float = 0.0, custom_index_p: float = 0.0) -> Dict[str, Any]:
     constructor = rng.choice(constructors)
     mode = rng.choice(["initial_state", "chain", "connectivity"] if connectivity else ["initial_state", "chain"])
     inp: Dict[str, Any] = {"constructor": constructor, "description": mode, "refocus": rng.random() < 0.7}
@@ -88,6 +88,9 @@ def gen_repcode_input(rng: random.Random, max_distance: int = 4, max_cycles: int
         inp["state_container"] = "shuffled"
     elif r < 0.25 and mode != "initial_state":
         inp["state_container"] = "partial"      # (the distance of an initial-state description is the number of named qubits)
+    if custom_index_p and mode == "connectivity" and rng.random() < custom_index_p:
+        numbers = rng.sample(range(0, 24), len(inp["involved"]))
+        inp["index_map"] = {q: n for q, n in zip(inp["involved"], numbers)}
     if composite_p and mode == "connectivity" and rng.random() < composite_p:
         inp["composite"] = gen_composite(rng, inp)
     return inp
@@ -120,10 +123,15 @@ def description_of(inp: Dict[str, Any]):
     if mode == "chain":
         return RepetitionCodeDescription.from_chain(length=2 * inp["distance"] - 1, qubit_refocusing=inp.get("refocus", True))
     if mode == "connectivity":
+        kwargs = {}
+        if inp.get("index_map"):
+            # caller-chosen circuit channels (e.g. hardware channel numbers), not the positions along the chain
+            kwargs["qubit_index_map"] = {QubitIDObj(q): int(i) for q, i in inp["index_map"].items()}
         base = RepetitionCodeDescription.from_connectivity(
             involved_qubit_ids=[QubitIDObj(q) for q in inp["involved"]],
             connectivity=layout(inp["layout"]),
             qubit_refocusing=inp.get("refocus", True),
+            **kwargs,
         )
         comp = inp.get("composite")
         if not comp:
@@ -134,7 +142,7 @@ def description_of(inp: Dict[str, Any]):
         inp["_base_description_object"] = base      # kept for checks that use the base again after the composite was evaluated
         return CompositeRepetitionCodeDescription(
             _base_description=base,
-            _qubit_index_map={QubitIDObj(q): i for i, q in enumerate(inp["involved"])},
+            _qubit_index_map={QubitIDObj(q): (int(inp["index_map"][q]) if inp.get("index_map") else i) for i, q in enumerate(inp["involved"])},
             _connectivity=layout(inp["layout"]),
             _exclude_gate_qubit_ids=[QubitIDObj(q) for q in comp.get("exclude_gate_qubits", [])],
             _exclude_gate_edge_ids=[EdgeIDObj(QubitIDObj(a), QubitIDObj(b)) for a, b in comp.get("exclude_gate_edges", [])],
